@@ -44,5 +44,5 @@ Fixpoint linear (used : list Z) (ops : list wop) : bool :=
   | [] => true
   | WNew _ _ _ :: t | WDel _ _ :: t | WElab _ :: t => linear used t
   | WSet _ _ x :: t | WAdd _ x _ :: t => negb (existsb (Z.eqb x) used) && linear (x :: used) t
-  | WVis x _ :: t | WName x _ :: t => negb (existsb (Z.eqb x) used) && linear used t
+  | WVis x _ :: t | WDir x _ :: t | WName x _ :: t => negb (existsb (Z.eqb x) used) && linear used t
   end.
